@@ -34,7 +34,7 @@ EPS = 2.3e-16
 
 def generate(tier, seed):
     rng = np.random.default_rng([seed, 5])
-    n = {"quick": 60, "thorough": 600}[tier]
+    n = {"quick": 60, "thorough": 2000}[tier]
     cases = []
     for rep in range(n):
         for v in kc.VARIANTS:
